@@ -71,6 +71,7 @@ type verifC04Kid struct {
 	labVal     string
 	typeLabels bool // revisions only: the apiGroup/resource labels are right
 	match      bool // the labels satisfy the parent's selector
+	canary     bool // carries track=canary, which a selector with the NotIn expression excludes
 	foreignUID string
 	deleting   bool
 	live       int
@@ -81,7 +82,7 @@ type verifC04Kid struct {
 // the 2nd/3rd object to keep the product small). Dimensions that cannot
 // influence anything the property talks about are not varied: the live state
 // of an object is drawn only when an adoption or release of it is due.
-func verifC04DrawKid(i int, full bool, revision bool, selVal string, cachedDeleting bool) *verifC04Kid {
+func verifC04DrawKid(i int, full bool, revision bool, selVal string, cachedDeleting bool, byExpr bool) *verifC04Kid {
 	n := verifC04Num[i]
 	k := &verifC04Kid{name: "c" + n, hasLabel: true, typeLabels: true}
 	k.owner = verifC04Pick("owner"+n, 3)
@@ -111,6 +112,14 @@ func verifC04DrawKid(i int, full bool, revision bool, selVal string, cachedDelet
 		k.labVal = rt.String("label" + n)
 		if k.typeLabels {
 			k.match = k.labVal == selVal
+		}
+	}
+	if byExpr && full {
+		// the selector also carries `track NotIn (canary)`: an object that has the
+		// labels but fails the expression does NOT match
+		if k.canary = rt.Bool("fails-the-selector-expression" + n); k.canary {
+			rt.Cover("has-the-labels-fails-the-expression")
+			k.match = false
 		}
 	}
 	due := false
@@ -232,6 +241,9 @@ func verifC04Child(k *verifC04Kid, uid string, withRival bool) *unstructured.Uns
 	if k.hasLabel {
 		env.SetLabel(o, "app", k.labVal)
 	}
+	if k.canary {
+		env.SetLabel(o, "track", "canary")
+	}
 	if refs := verifC04RefMaps(verifC04Refs(k, k.owner == verifC04Ours, withRival)); len(refs) > 0 {
 		o.Object["metadata"].(map[string]interface{})["ownerReferences"] = refs
 	}
@@ -253,12 +265,20 @@ func verifC04WithoutRefs(o *unstructured.Unstructured) map[string]interface{} {
 
 type verifC04Exp struct {
 	verb, res, name string
+	// optional: a write the property does not demand (the adoption body that
+	// would carry two controller references may be sent - the server refuses
+	// it - or be held back by a client-side look at the live owner references)
+	optional bool
 }
 
 // verifC04Parent draws the cached and the live parent.
-func verifC04Parent(w *env.World, selVal string) (cached *unstructured.Unstructured, cachedDeleting bool, liveParent int) {
+func verifC04Parent(w *env.World, selVal string) (cached *unstructured.Unstructured, cachedDeleting bool, liveParent int, byExpr bool) {
 	cached = env.Thing("ns", "p", "puid")
-	cached.Object["spec"] = map[string]interface{}{"selector": map[string]interface{}{"matchLabels": map[string]interface{}{"app": selVal}}}
+	sel := map[string]interface{}{"matchLabels": map[string]interface{}{"app": selVal}}
+	if byExpr = rt.Bool("selector-also-has-a-matchExpression"); byExpr {
+		sel["matchExpressions"] = []interface{}{map[string]interface{}{"key": "track", "operator": "NotIn", "values": []interface{}{"canary"}}}
+	}
+	cached.Object["spec"] = map[string]interface{}{"selector": sel}
 	cachedDeleting = rt.Bool("cached-parent-deleting")
 	if cachedDeleting {
 		env.MarkDeleting(cached)
@@ -304,7 +324,7 @@ func verifC04RefusedCover(liveParent int) {
 func VerifC04_ClaimChildren() {
 	w := env.NewWorld()
 	selVal := rt.String("selector-value")
-	parent, cachedDeleting, liveParent := verifC04Parent(w, selVal)
+	parent, cachedDeleting, liveParent, byExpr := verifC04Parent(w, selVal)
 
 	nKids := 1
 	if !cachedDeleting {
@@ -313,7 +333,7 @@ func VerifC04_ClaimChildren() {
 	var kids []*verifC04Kid
 	var cached, live []*unstructured.Unstructured
 	for i := 0; i < nKids; i++ {
-		k := verifC04DrawKid(i, i == 0, false, selVal, cachedDeleting)
+		k := verifC04DrawKid(i, i == 0, false, selVal, cachedDeleting, byExpr)
 		kids = append(kids, k)
 		c := verifC04Child(k, "u"+verifC04Num[i], false)
 		cached = append(cached, c)
@@ -367,11 +387,11 @@ func VerifC04_ClaimChildren() {
 				rt.Cover("parent-deleting/no-release")
 				break
 			}
-			exp = append(exp, verifC04Exp{"get", "configmaps", k.name})
+			exp = append(exp, verifC04Exp{"get", "configmaps", k.name, false})
 			switch k.live {
 			case verifC04LiveSame:
 				rt.Cover("release/written")
-				exp = append(exp, verifC04Exp{"update", "configmaps", k.name})
+				exp = append(exp, verifC04Exp{"update", "configmaps", k.name, false})
 				written[i] = "release"
 			case verifC04LiveReplaced:
 				rt.Cover("release/live-child-replaced")
@@ -393,7 +413,7 @@ func VerifC04_ClaimChildren() {
 			}
 			// adoption is attempted: exactly one live recheck per pass, before any adoption write
 			if !rechecked {
-				exp = append(exp, verifC04Exp{"get", "things", "p"})
+				exp = append(exp, verifC04Exp{"get", "things", "p", false})
 				rechecked = true
 			}
 			if !recheckOK {
@@ -401,11 +421,11 @@ func VerifC04_ClaimChildren() {
 				wantErr = true
 				break
 			}
-			exp = append(exp, verifC04Exp{"get", "configmaps", k.name})
+			exp = append(exp, verifC04Exp{"get", "configmaps", k.name, false})
 			switch k.live {
 			case verifC04LiveSame:
 				rt.Cover("adopt/written")
-				exp = append(exp, verifC04Exp{"update", "configmaps", k.name})
+				exp = append(exp, verifC04Exp{"update", "configmaps", k.name, false})
 				written[i] = "adopt"
 				claimed[i] = true
 			case verifC04LiveReplaced:
@@ -415,7 +435,7 @@ func VerifC04_ClaimChildren() {
 			case verifC04LiveRival:
 				// the body carries two controller references; only the server's validation stops it
 				rt.Cover("race/rival-adopted-first")
-				exp = append(exp, verifC04Exp{"update", "configmaps", k.name})
+				exp = append(exp, verifC04Exp{"update", "configmaps", k.name, true})
 				written[i] = "rejected"
 				wantErr = true
 			}
@@ -436,7 +456,7 @@ func VerifC04_ClaimChildren() {
 			uexp = append(uexp, e)
 		}
 	}
-	nUpd := 0
+	nUpd, extraWrites := 0, 0
 	firstParentGet, firstAdoptWrite := -1, -1
 	for j, r := range log {
 		rt.Assert(r.NS == "ns", "requests/unexpected-namespace")
@@ -447,16 +467,24 @@ func VerifC04_ClaimChildren() {
 			}
 		}
 		if r.Verb == "update" {
+			for nUpd < len(uexp) && uexp[nUpd].optional && !(r.Resource == uexp[nUpd].res && r.Name == uexp[nUpd].name) {
+				nUpd++ // an optional write that was not sent
+			}
 			if nUpd < len(uexp) {
 				rt.Assert(r.Resource == uexp[nUpd].res, "requests/unexpected-resource")
 				rt.Assert(r.Name == uexp[nUpd].name, "requests/unexpected-target")
+			} else {
+				extraWrites++
 			}
 			nUpd++
 		}
 		rt.Assert(r.Verb == "get" || r.Verb == "update", "requests/verb-other-than-get-update")
 		rt.Assert(r.Sub == "", "requests/subresource")
 	}
-	rt.Assert(nUpd == len(uexp), "requests/writes-differ-from-expected")
+	for nUpd < len(uexp) && uexp[nUpd].optional {
+		nUpd++
+	}
+	rt.Assert(nUpd == len(uexp) && extraWrites == 0, "requests/writes-differ-from-expected")
 
 	// every write: which child, what kind, body = live object with only ownerReferences changed
 	for j, r := range log {
@@ -579,6 +607,9 @@ func verifC04Revision(k *verifC04Kid, uid string, withRival bool) *v1alpha1.Cont
 	if k.hasLabel {
 		cr.Labels["app"] = k.labVal
 	}
+	if k.canary {
+		cr.Labels["track"] = "canary"
+	}
 	cr.OwnerReferences = verifC04Refs(k, k.owner == verifC04Ours, withRival)
 	cr.ParentPatch = runtime.RawExtension{Raw: []byte(`{"spec":{"x":"1"}}`)}
 	cr.Children = []v1alpha1.ControllerRevisionChildren{{APIGroup: "", Kind: "ConfigMap", Names: []string{"a"}}}
@@ -613,7 +644,7 @@ func verifC04RevSameButRefs(a, b *v1alpha1.ControllerRevision, what string) {
 func VerifC04_RevisionClaims() {
 	w := env.NewWorld()
 	selVal := rt.String("selector-value")
-	parent, cachedDeleting, liveParent := verifC04Parent(w, selVal)
+	parent, cachedDeleting, liveParent, byExpr := verifC04Parent(w, selVal)
 
 	nKids := 1
 	if !cachedDeleting {
@@ -622,7 +653,7 @@ func VerifC04_RevisionClaims() {
 	var kids []*verifC04Kid
 	var cached, live []*v1alpha1.ControllerRevision
 	for i := 0; i < nKids; i++ {
-		k := verifC04DrawKid(i, i == 0, true, selVal, cachedDeleting)
+		k := verifC04DrawKid(i, i == 0, true, selVal, cachedDeleting, byExpr)
 		kids = append(kids, k)
 		c := verifC04Revision(k, "u"+verifC04Num[i], false)
 		cached = append(cached, c)
@@ -676,11 +707,11 @@ func VerifC04_RevisionClaims() {
 				rt.Cover("parent-deleting/no-release")
 				break
 			}
-			exp = append(exp, verifC04Exp{"get", rres, k.name})
+			exp = append(exp, verifC04Exp{"get", rres, k.name, false})
 			switch k.live {
 			case verifC04LiveSame:
 				rt.Cover("release/written")
-				exp = append(exp, verifC04Exp{"update", rres, k.name})
+				exp = append(exp, verifC04Exp{"update", rres, k.name, false})
 				written[i] = "release"
 			case verifC04LiveReplaced:
 				rt.Cover("release/live-revision-replaced")
@@ -701,7 +732,7 @@ func VerifC04_RevisionClaims() {
 				break
 			}
 			if !rechecked {
-				exp = append(exp, verifC04Exp{"get", "things", "p"})
+				exp = append(exp, verifC04Exp{"get", "things", "p", false})
 				rechecked = true
 			}
 			if !recheckOK {
@@ -709,11 +740,11 @@ func VerifC04_RevisionClaims() {
 				wantErr = true
 				break
 			}
-			exp = append(exp, verifC04Exp{"get", rres, k.name})
+			exp = append(exp, verifC04Exp{"get", rres, k.name, false})
 			switch k.live {
 			case verifC04LiveSame:
 				rt.Cover("adopt/written")
-				exp = append(exp, verifC04Exp{"update", rres, k.name})
+				exp = append(exp, verifC04Exp{"update", rres, k.name, false})
 				written[i] = "adopt"
 				claimed[i] = true
 			case verifC04LiveReplaced:
@@ -723,7 +754,7 @@ func VerifC04_RevisionClaims() {
 				rt.Cover("adopt/live-revision-gone")
 			case verifC04LiveRival:
 				rt.Cover("race/rival-adopted-first")
-				exp = append(exp, verifC04Exp{"update", rres, k.name})
+				exp = append(exp, verifC04Exp{"update", rres, k.name, true})
 				written[i] = "rejected"
 				wantErr = true
 			}
@@ -743,7 +774,7 @@ func VerifC04_RevisionClaims() {
 			uexp = append(uexp, e)
 		}
 	}
-	nUpd := 0
+	nUpd, extraWrites := 0, 0
 	firstParentGet, firstAdoptWrite := -1, -1
 	for j, r := range log {
 		rt.Assert(r.NS == "ns", "requests/unexpected-namespace")
@@ -754,15 +785,23 @@ func VerifC04_RevisionClaims() {
 			}
 		}
 		if r.Verb == "update" {
+			for nUpd < len(uexp) && uexp[nUpd].optional && !(r.Resource == uexp[nUpd].res && r.Name == uexp[nUpd].name) {
+				nUpd++ // an optional write that was not sent
+			}
 			if nUpd < len(uexp) {
 				rt.Assert(r.Resource == uexp[nUpd].res, "requests/unexpected-resource")
 				rt.Assert(r.Name == uexp[nUpd].name, "requests/unexpected-target")
+			} else {
+				extraWrites++
 			}
 			nUpd++
 		}
 		rt.Assert(r.Verb == "get" || r.Verb == "update", "requests/verb-other-than-get-update")
 	}
-	rt.Assert(nUpd == len(uexp), "requests/writes-differ-from-expected")
+	for nUpd < len(uexp) && uexp[nUpd].optional {
+		nUpd++
+	}
+	rt.Assert(nUpd == len(uexp) && extraWrites == 0, "requests/writes-differ-from-expected")
 	for j, r := range log {
 		if r.Verb != "update" {
 			continue
